@@ -162,6 +162,18 @@ def consume(recipes, producer_log, out):
                     f.write(json.dumps(ev) + "\n")
                     continue
                 got = pickle.loads(base64.b64decode(pe["blob"]))
+                if r["kind"] == "expr" and not pe["hash_first"]:
+                    # the consumer's FIRST use of the object fails and is caught (warnings are
+                    # errors in that part of the application: hashing a legacy subclass warns);
+                    # afterwards the object hashes and compares like the locally built one
+                    import warnings
+                    with warnings.catch_warnings():
+                        warnings.simplefilter("error")
+                        try:
+                            hash(got)
+                            {got: 1}    # noqa: B018
+                        except Exception:  # noqa: BLE001
+                            ev["first_hash_failed"] = True
                 if r["kind"] == "compiled":
                     n = len(r["allvars"])
                     a = refsem.outcome(lambda: got(*ARGS[:n]))
